@@ -231,6 +231,7 @@ class Manager:
         self._executing_thread = None
         self._flushing_thread = None
         self._running = False
+        self._exit_code = None
         self.__thread = None
         self.__process = None
         self._lock = RLock()
@@ -669,7 +670,7 @@ class Manager:
             except KeyboardInterrupt:
                 self.stop()
             except SystemExit as e:
-                self.stop(e.code)
+                self._stopWithCode(e.code)
             except BaseException:
                 value = err = _exc_info()
                 event.value.errors = True
@@ -798,6 +799,9 @@ class Manager:
             return
 
         self._running = False
+        if code is not None:
+            # run() raises it once everything has been processed
+            self._exit_code = code
 
         self.fire(stopped(self))
 
@@ -821,6 +825,15 @@ class Manager:
         finally:
             self._currently_handling = None
             self._flushing_thread = old_flushing
+
+    def _stopWithCode(self, code):
+        # A handler raised SystemExit (or called stop(code)): stop, but leave
+        # the exit itself to run(), which takes it once `stopped` and all
+        # that is queued have been dispatched.
+        if code is not None and self._exit_code is None:
+            self._exit_code = code
+        with contextlib.suppress(SystemExit):
+            self.stop(code)
 
     def processTask(self, event, task, parent=None):  # noqa
         # TODO: C901: This has a high McCabe complexity score of 16.
@@ -903,7 +916,7 @@ class Manager:
         except KeyboardInterrupt:
             self.stop()
         except SystemExit as e:
-            self.stop(e.code)
+            self._stopWithCode(e.code)
         except BaseException:
             self.unregisterTask((event, task, parent))
 
@@ -1002,3 +1015,7 @@ class Manager:
         self.root._executing_thread = None
         self.__thread = None
         self.__process = None
+
+        if self._exit_code is not None:
+            code, self._exit_code = self._exit_code, None
+            raise SystemExit(code)
